@@ -18,8 +18,11 @@ own_payloads(cls, rng, n_random)  own-length payloads: exhaustive if <= 65536 po
                                   get float32_points(): float32 neighbours of powers of ten, k*10^n,
                                   powers of two, zero/subnormal/max/inf/NaN borders
 payloads_for(cls, rng, tier)      the hostile space of C07 (every payload kind and length)
+boundary_payloads(cls)            structure-aware boundary payloads for packed 3+-octet types (every octet / pair of
+                                  octets at field-boundary values over zero and near-zero accepted backgrounds)
 decode_image(cls, rng, n)         list of (payload, value) the type accepts (complete when the own
-                                  space has <= 65536 points, else at most n, structured + random)
+                                  space has <= 65536 points, else at most n structured + random ones, plus -
+                                  for complex types - every accepted boundary_payloads() case)
 class_by_name(name)               concrete class by __name__ (replays)
 behaviour_signature(cls)          everything that makes two classes transcode differently
 representatives(classes)          first class of every behaviour signature
@@ -187,12 +190,79 @@ def float32_points(which: str = "full") -> list[int]:
     return list(out)
 
 
-def own_payloads(cls: type[DPTBase], rng: Any, n_random: int = 3000, float_points: str = "full") -> Iterator[DPTArray | DPTBinary]:
+# octet values where a packed field can change behaviour: 2^k-1 / 2^k for every field width and the calendar /
+# percentage limits (12, 23/24, 31, 59/60, 99/100) with their neighbours
+BOUNDARY_OCTETS = (0, 1, 2, 3, 4, 7, 8, 9, 11, 12, 13, 15, 16, 23, 24, 25, 30, 31, 32, 58, 59, 60, 63, 64, 89, 90, 99, 100, 127, 128, 191, 192, 254, 255)
+
+
+BOUNDARY_PAIR_OCTETS = (0, 1, 7, 12, 23, 24, 31, 59, 60, 127, 255)
+
+
+def boundary_payloads(cls: type[DPTBase], max_backgrounds: int = 4) -> Iterator[DPTArray]:
+    """Structure-aware boundary payloads for packed array types of 3+ octets, found from the decoder itself.
+
+    1. the all-zero array with one octet at every value and with every pair of octets at BOUNDARY_OCTETS
+       values (fields at the min/max of their wire range, the others at 0);
+    2. the accepted ones closest to zero - one per distinct set of changed positions, e.g. for DPT 19 "only the
+       date-invalid flag set" and "month = day = 1" - become backgrounds;
+    3. over each background (at most max_backgrounds) every octet position is swept through all 256 values and
+       every pair of positions through BOUNDARY_PAIR_OCTETS (so e.g. hour 24 meets minutes = seconds = 0,
+       month 12 meets day 31).
+    """
+    n = cls.payload_length
+    if is_binary(cls) or n < 3:
+        return
+    zero = (0,) * n
+    firsts: dict[tuple[int, ...], tuple[int, ...]] = {}
+
+    def note(cand: tuple[int, ...], changed: tuple[int, ...]) -> None:
+        if changed not in firsts and try_decode(cls, DPTArray(cand))[0] == "ok":
+            firsts[changed] = cand
+
+    yield DPTArray(zero)
+    note(zero, ())
+    for pos in range(n):
+        for octet in range(256):
+            cand = (*zero[:pos], octet, *zero[pos + 1 :])
+            yield DPTArray(cand)
+            note(cand, (pos,))
+    for i in range(n):
+        for j in range(i + 1, n):
+            for a in BOUNDARY_OCTETS[1:]:
+                for b in BOUNDARY_OCTETS[1:]:
+                    cand = list(zero)
+                    cand[i], cand[j] = a, b
+                    if (i, j) not in firsts:  # searched, not all yielded: only the first accepted one per pair of positions
+                        note(tuple(cand), (i, j))
+                        if (i, j) in firsts:
+                            yield DPTArray(tuple(cand))
+    backgrounds = sorted(firsts.items(), key=lambda kv: (len(kv[0]), kv[0]))[:max_backgrounds]
+    for _changed, bg in backgrounds:
+        for pos in range(n):
+            for octet in range(256):
+                yield DPTArray((*bg[:pos], octet, *bg[pos + 1 :]))
+        for i in range(n):
+            for j in range(i + 1, n):
+                for a in BOUNDARY_PAIR_OCTETS:
+                    for b in BOUNDARY_PAIR_OCTETS:
+                        cand = list(bg)
+                        cand[i], cand[j] = a, b
+                        yield DPTArray(tuple(cand))
+
+
+def own_payloads(
+    cls: type[DPTBase], rng: Any, n_random: int = 3000, float_points: str = "full", boundaries: bool | None = None
+) -> Iterator[DPTArray | DPTBinary]:
     """Payloads of the type's own kind and length (see module docstring).
 
     4-octet array types additionally get float32_points(float_points) ("full", "decades" or "none").
+    Complex types (or any type with boundaries=True) get boundary_payloads() first.
     """
     size = space_size(cls)
+    if boundaries is None:
+        boundaries = kind(cls) == "complex"
+    if boundaries and size > EXHAUSTIVE_LIMIT:
+        yield from boundary_payloads(cls)
     if not is_binary(cls) and cls.payload_length == 4 and float_points != "none":
         for n in float32_points(float_points):
             yield DPTArray(tuple(n.to_bytes(4, "big")))
@@ -242,7 +312,7 @@ def payloads_for(cls: type[DPTBase], rng: Any, tier: str = "quick") -> Iterator[
         yield DPTArray((0xFF,) * length)
         yield DPTArray(tuple(rng.randrange(256) for _ in range(length)))
     if own_len is not None and own_len >= 3:
-        yield from own_payloads(cls, rng, 3000 if quick else 100000)
+        yield from own_payloads(cls, rng, 3000 if quick else 100000, boundaries=False if quick else None)
 
 
 def decode_image(cls: type[DPTBase], rng: Any, n: int = 2000) -> list[tuple[DPTArray | DPTBinary, Any]]:
@@ -253,14 +323,26 @@ def decode_image(cls: type[DPTBase], rng: Any, n: int = 2000) -> list[tuple[DPTA
     arrays.
     """
     out: list[tuple[DPTArray | DPTBinary, Any]] = []
-    for payload in own_payloads(cls, rng, n_random=2 * n):
+    seen: set[Any] = set()
+    must: list[tuple[DPTArray | DPTBinary, Any]] = []  # structure-aware boundary cases are never sampled away
+    if kind(cls) == "complex" and space_size(cls) > EXHAUSTIVE_LIMIT:
+        for payload in boundary_payloads(cls):
+            if payload.value in seen:
+                continue
+            seen.add(payload.value)
+            status, value = try_decode(cls, payload)
+            if status == "ok":
+                must.append((payload, value))
+    for payload in own_payloads(cls, rng, n_random=2 * n, boundaries=False):
+        if must and payload.value in seen:
+            continue
         status, value = try_decode(cls, payload)
         if status == "ok":
             out.append((payload, value))
     if space_size(cls) > EXHAUSTIVE_LIMIT and len(out) > n:
         keep = sorted(rng.sample(range(len(out)), n))
         out = [out[i] for i in keep]
-    return out
+    return must + out
 
 
 def behaviour_signature(cls: type[DPTBase]) -> tuple[Any, ...]:
